@@ -13,6 +13,7 @@ import (
 	"grol.io/grol/lexer"
 	"grol.io/grol/object"
 	"grol.io/grol/parser"
+	"grol.io/grol/simhook"
 	"grol.io/grol/token"
 	"grol.io/grol/trie"
 )
@@ -128,6 +129,7 @@ func (s *State) SetContext(ctx context.Context, d time.Duration) context.CancelF
 	} else {
 		s.Context, s.Cancel = context.WithTimeout(ctx, d)
 	}
+	s.Context = simhook.WrapContext(s.Context)
 	return s.Cancel
 }
 
